@@ -311,7 +311,9 @@ class ManualExecutor:
 
     def _advance(self, i, stepping):
         co = self.jobs[i][5]
-        ok = co.advance(stepping, timeout=0.2)
+        # a job that does not come back soon is taken to be blocked by another job that is under way; with no other job under
+        # way there is nothing it could be blocked by (only a slow machine): wait for it
+        ok = co.advance(stepping, timeout=0.2 if any(k != i for k in self.under_way()) else HANG_S)
 
         def others_finish():
             for k in self.under_way():
